@@ -13,6 +13,12 @@ r = subprocess.run(["git", "-C", "/repo", "apply", os.path.join(seed, "patch.dif
 if r.returncode != 0:
     print("patch does not apply"); sys.exit(2)
 res = {}
+import shutil
+saved = {}
+for pid in ids:
+    ev = os.path.join(V, "evidence", pid + ".json")
+    if os.path.exists(ev):
+        saved[pid] = open(ev).read()
 try:
     for pid in ids:
         t0 = time.time()
@@ -22,6 +28,9 @@ try:
         res[pid] = {"exit": p.returncode, "violation": viol[-1] if viol else None, "wall_s": round(time.time() - t0, 1), "tail": lines[-3:]}
         print(pid, p.returncode, viol[-1] if viol else "-", "%.0fs" % (time.time() - t0), flush=True)
 finally:
+    # evidence files committed under /verif describe the UNCHANGED tree: put them back
+    for pid, txt in saved.items():
+        open(os.path.join(V, "evidence", pid + ".json"), "w").write(txt)
     subprocess.run(["git", "-C", "/repo", "checkout", "--", "."])
     subprocess.run(["git", "-C", "/repo", "clean", "-fdq", "-e", "target"])
 json.dump(res, open(os.path.join(seed, "check_result.json"), "w"), indent=1)
